@@ -119,10 +119,10 @@ def _attr_to_keep(ow):
 
 
 # ---------------------------------------------------------------------------------------
-def _run(wd, name, asms, positions, coolant='sodium', gap='none'):
+def _run(wd, name, asms, positions, coolant='sodium', gap='none', extra=''):
     from pvc import geninput as G
     p = G.write_problem(os.path.join(wd, name), asms=asms, positions=positions, gap_model=gap,
-                        setup_extra='    axial_mesh_size = 0.004\n')
+                        setup_extra='    axial_mesh_size = 0.004\n' + extra)
     txt = open(p).read().replace('coolant_material   = sodium_fixed', 'coolant_material   = ' + coolant)
     open(p, 'w').write(txt)
     return G.build(p, sweep=True)[1]
@@ -145,13 +145,14 @@ def metamorphic(case):
             asms = {'a1': dict(unrodded=[('lower', 0.0, 0.3, '6node'), ('upper', 0.8, 1.0, 'simple')])}
         if case == 'double_duct':
             asms = {'a1': dict(n_duct=2)}
-        alone = _run(wd, 'alone', {'a1': asms['a1']}, [('a1', 1, 1, 0.06)])
+        extra = '    param_update_tol = 0.01\n' if case == 'param_update_tol' else ''
+        alone = _run(wd, 'alone', {'a1': asms['a1']}, [('a1', 1, 1, 0.06)], extra=extra)
         others = [('a1', 2, k, 0.2 + 0.07 * k) for k in range(1, 7)]
         if case != 'mixed':
             asms = {'a1': asms['a1']}
         if case == 'mixed':
             others = [('b' if k % 2 else 'a1', 2, k, 0.2 + 0.07 * k) for k in range(1, 7)]
-        seven = _run(wd, 'seven', asms, [('a1', 1, 1, 0.06)] + others)
+        seven = _run(wd, 'seven', asms, [('a1', 1, 1, 0.06)] + others, extra=extra)
         s1, s7 = _state(alone.assemblies[0]), _state(seven.assemblies[0])
         same_planes = np.array_equal(alone.z, seven.z)
         ok = same_planes and all(np.array_equal(x, y) for x, y in zip(s1, s7))
@@ -159,7 +160,7 @@ def metamorphic(case):
                            'max |dT| = %.3e, dp %s vs %s' % (float(np.max(np.abs(s1[0] - s7[0]))), s1[2], s7[2]))
         res = {'alone_equals_in_company': (ok, d)}
         # reordering the assignment list of the others
-        seven_r = _run(wd, 'seven_r', asms, [('a1', 1, 1, 0.06)] + others[::-1])
+        seven_r = _run(wd, 'seven_r', asms, [('a1', 1, 1, 0.06)] + others[::-1], extra=extra)
         # position k of the reversed list carries flow of position 7-k: compare the centre assembly only
         s7r = _state(seven_r.assemblies[0])
         ok2 = all(np.array_equal(x, y) for x, y in zip(s7, s7r))
@@ -171,7 +172,7 @@ def metamorphic(case):
         shutil.rmtree(wd, ignore_errors=True)
 
 
-CASES = ['same_type', 'mixed', 'sixnode', 'double_duct']
+CASES = ['same_type', 'mixed', 'sixnode', 'double_duct', 'param_update_tol']
 
 
 def extra_checks(tier, seed):
